@@ -75,6 +75,9 @@ fn main() {
         "C05" => dispatch::<c01::C05>(cmd, &args),
         "C06" => dispatch::<structural::C06>(cmd, &args),
         "C07" => dispatch::<structural::C07>(cmd, &args),
+        "C08" => dispatch::<iters::C08>(cmd, &args),
+        "C09" => dispatch::<iters::C09>(cmd, &args),
+        "C10" => dispatch::<iters::C10>(cmd, &args),
         "C11" => dispatch::<fault::C11>(cmd, &args),
         "C12" => dispatch::<fault::C12>(cmd, &args),
         "C13" => dispatch::<grid::C13>(cmd, &args),
